@@ -16,7 +16,7 @@ Local Open Scope nat_scope.
 Local Open Scope list_scope.
 
 (* ------------------------------------------------------------------------------------------------ *)
-(* hand-written arity table: name -> (#controls, #targets, #parameters), one line per name of dispatch *)
+(* hand-written arity table: name -> (#controls, #targets, #parameters), one entry per name of dispatch and of class_map *)
 Definition arity_tab : list (string * (nat * nat * nat)) := [
   ("RX", (0, 1, 1)); ("RY", (0, 1, 1)); ("RZ", (0, 1, 1));
   ("X", (0, 1, 0)); ("Y", (0, 1, 0)); ("CY", (1, 1, 0)); ("Z", (0, 1, 0)); ("CZ", (1, 1, 0));
@@ -27,8 +27,20 @@ Definition arity_tab : list (string * (nat * nat * nat)) := [
   ("CNOT", (1, 1, 0)); ("CSIGN", (1, 1, 0));
   ("BERKELEY", (0, 2, 0)); ("SWAPalpha", (0, 2, 1)); ("SWAP", (0, 2, 0)); ("ISWAP", (0, 2, 0));
   ("SQRTSWAP", (0, 2, 0)); ("SQRTISWAP", (0, 2, 0));
-  ("FREDKIN", (1, 2, 0)); ("TOFFOLI", (2, 1, 0)); ("IDLE", (0, 1, 0))].
+  ("FREDKIN", (1, 2, 0)); ("TOFFOLI", (2, 1, 0)); ("IDLE", (0, 1, 0));
+  (* names of GATE_CLASS_MAP that are not in dispatch *)
+  ("H", (0, 1, 0)); ("iSWAP", (0, 2, 0)); ("SWAPALPHA", (0, 2, 1)); ("MS", (0, 2, 2)); ("CX", (1, 1, 0));
+  ("RZX", (0, 2, 1))].
 Definition arity (n : string) : option (nat * nat * nat) := assoc n arity_tab.
+
+(* the matrix of a gate by name: Gate(name).get_compact_qobj (dispatch); names that only have a dedicated class
+   (H, iSWAP, SWAPALPHA, MS, CX, RZX: what add_gate(name) instantiates) take the matrix of that class.  For names in both
+   tables the two matrices agree (C09: lib_paths_agree). *)
+Definition gate_mexp (n : string) : option mexp :=
+  match assoc n dispatch with
+  | Some m => Some m
+  | None => match assoc n class_map with Some c => assoc c class_mat | None => None end
+  end.
 
 (* a gate with >= 2 parameters needs exactly that many argument values; gates with <= 1 parameter read (at most) the
    atoms of parameter 0 of whatever argument list they carry *)
@@ -39,7 +51,7 @@ Definition ikey (g : instr) : list Q := map Qred (iargs g).              (* argu
 
 (* the matrix expression of a well-formed instruction *)
 Definition wf_instr (g : instr) : option mexp :=
-  match arity (iname g), assoc (iname g) dispatch with
+  match arity (iname g), gate_mexp (iname g) with
   | Some (nc, nt, np), Some m =>
       if (length (icontrols g) =? nc) && (length (itargets g) =? nt) && nodupb (iqubits g) && params_ok np (iargs g)
       then Some m else None
@@ -73,13 +85,13 @@ Definition chkC (nc nt : nat) (m : mexp) : bool :=
   end.
 Definition name_ok (e : string * (nat * nat * nat)) : bool :=
   let '(n, (nc, nt, np)) := e in
-  match assoc n dispatch with
+  match gate_mexp n with
   | Some m => shape_ok nc nt && (if np <=? 1 then chkB nc nt m else nc =? 0) && chkC nc nt m
   | None => false
   end.
 (* rule case A: CNOT with X / RX on its target, with Z / RZ on its control *)
 Definition pair_check (na nb : string) (k : nat) (la lb : list nat) : bool :=
-  match assoc na dispatch, assoc nb dispatch with
+  match gate_mexp na, gate_mexp nb with
   | Some ma, Some mb => comm_check k ma la mb lb
   | _, _ => false
   end.
@@ -87,10 +99,24 @@ Definition chkA : bool :=
   pair_check "CNOT" "X" 2 [0;1] [1] && pair_check "CNOT" "RX" 2 [0;1] [1] &&
   pair_check "CNOT" "Z" 2 [0;1] [0] && pair_check "CNOT" "RZ" 2 [0;1] [0].
 Definition cover : bool :=
-  forallb (fun p : string * mexp => match arity (fst p) with Some _ => true | None => false end) dispatch.
+  forallb (fun p : string * mexp => match arity (fst p) with Some _ => true | None => false end) dispatch &&
+  forallb (fun p : string * string => match arity (fst p) with Some _ => true | None => false end) class_map.
 
 Definition all_ok : bool := forallb name_ok arity_tab && chkA && cover.
 Lemma all_ok_true : all_ok = true. Proof. vm_compute. reflexivity. Qed.
+
+(* Instruction sorts its target and control lists: the matrices with two targets / two controls are invariant *)
+Definition sym_ok (e : string * (nat * nat * nat)) : bool :=
+  let '(n, (nc, nt, np)) := e in
+  match gate_mexp n with
+  | Some m =>
+      (if (nt =? 2) && negb (String.eqb n "RZX") then scirc_eqb (nc + 2) [(m, seq 0 nc ++ [nc; nc + 1])] [(m, seq 0 nc ++ [nc + 1; nc])] else true) &&
+      (if nc =? 2 then scirc_eqb (2 + nt) [(m, 0 :: 1 :: seq 2 nt)] [(m, 1 :: 0 :: seq 2 nt)] else true)
+  | None => false
+  end.
+Definition sym_all : bool := forallb sym_ok arity_tab.
+Lemma sorted_faithful : sym_all = true. Proof. vm_compute. reflexivity. Qed.
+Global Opaque scirc_eqb.
 
 Global Opaque comm_check.
 
@@ -135,11 +161,11 @@ Proof.
 Qed.
 
 Lemma wf_spec g m : wf_instr g = Some m ->
-  exists nc nt np, arity (iname g) = Some (nc, nt, np) /\ assoc (iname g) dispatch = Some m /\
+  exists nc nt np, arity (iname g) = Some (nc, nt, np) /\ gate_mexp (iname g) = Some m /\
     length (icontrols g) = nc /\ length (itargets g) = nt /\ NoDup (iqubits g) /\ params_ok np (iargs g) = true.
 Proof.
   unfold wf_instr. destruct (arity (iname g)) as [[[nc nt] np]|]; [|discriminate].
-  destruct (assoc (iname g) dispatch) as [m'|]; [|discriminate].
+  destruct (gate_mexp (iname g)) as [m'|]; [|discriminate].
   destruct (_ && _) eqn:E; [|discriminate]. intro H. injection H as <-.
   apply andb_prop in E. destruct E as [E E4]. apply andb_prop in E. destruct E as [E E3].
   apply andb_prop in E. destruct E as [E1 E2]. apply Nat.eqb_eq in E1, E2.
@@ -154,7 +180,7 @@ Proof.
 Qed.
 
 Lemma wf_iff g m : wf_instr g = Some m <->
-  exists nc nt np, arity (iname g) = Some (nc, nt, np) /\ assoc (iname g) dispatch = Some m /\
+  exists nc nt np, arity (iname g) = Some (nc, nt, np) /\ gate_mexp (iname g) = Some m /\
     length (icontrols g) = nc /\ length (itargets g) = nt /\ NoDup (icontrols g ++ itargets g) /\
     (np <= 1 \/ length (iargs g) = np).
 Proof.
@@ -168,11 +194,12 @@ Proof.
     destruct H6 as [H6|H6]; [left; apply Nat.leb_le| right; apply Nat.eqb_eq]; exact H6.
 Qed.
 
-Lemma arity_cover n m : In (n, m) dispatch -> exists ar, arity n = Some ar.
+Lemma arity_cover n : (exists m, In (n, m) dispatch) \/ (exists c, In (n, c) class_map) -> exists ar, arity n = Some ar.
 Proof.
   intro H. pose proof all_ok_true as K. unfold all_ok in K. apply andb_prop in K. destruct K as [_ K].
-  unfold cover in K. rewrite forallb_forall in K. specialize (K _ H). cbn [fst] in K.
-  destruct (arity n) as [ar|]; [exists ar; reflexivity| discriminate].
+  unfold cover in K. apply andb_prop in K. destruct K as [K1 K2]. rewrite forallb_forall in K1, K2.
+  destruct H as [[m H]|[c H]]; [specialize (K1 _ H); cbn [fst] in K1| specialize (K2 _ H); cbn [fst] in K2];
+    destruct (arity n) as [ar|]; try discriminate; exists ar; reflexivity.
 Qed.
 
 Ltac dlen := repeat match goal with
@@ -266,13 +293,13 @@ Proof.
 Qed.
 
 (* ---- case A ---- *)
-Lemma caseA_X A B mc mx nx : assoc "CNOT" dispatch = Some mc -> assoc nx dispatch = Some mx ->
+Lemma caseA_X A B mc mx nx : gate_mexp "CNOT" = Some mc -> gate_mexp nx = Some mx ->
   pair_check "CNOT" nx 2 [0;1] [1] = true ->
   forall c t, c <> t -> commutes A B mc mx [c; t] [t].
 Proof.
   intros Ec Ex H c t N. unfold pair_check in H. rewrite Ec, Ex in H. fin H [c; t].
 Qed.
-Lemma caseA_Z A B mc mz nz : assoc "CNOT" dispatch = Some mc -> assoc nz dispatch = Some mz ->
+Lemma caseA_Z A B mc mz nz : gate_mexp "CNOT" = Some mc -> gate_mexp nz = Some mz ->
   pair_check "CNOT" nz 2 [0;1] [0] = true ->
   forall c t, c <> t -> commutes A B mc mz [c; t] [c].
 Proof.
@@ -289,13 +316,13 @@ Proof.
 Qed.
 
 Lemma name_facts n nc nt np : arity n = Some (nc, nt, np) ->
-  exists m, assoc n dispatch = Some m /\ shape_ok nc nt = true /\
+  exists m, gate_mexp n = Some m /\ shape_ok nc nt = true /\
             (if np <=? 1 then chkB nc nt m = true else nc = 0) /\ chkC nc nt m = true.
 Proof.
   intro Ha. apply assoc_In in Ha.
   pose proof all_ok_true as K. unfold all_ok in K. apply andb_prop in K. destruct K as [K _].
   apply andb_prop in K. destruct K as [K _]. rewrite forallb_forall in K. specialize (K _ Ha).
-  unfold name_ok in K. destruct (assoc n dispatch) as [m|]; [|discriminate]. exists m.
+  unfold name_ok in K. destruct (gate_mexp n) as [m|]; [|discriminate]. exists m.
   apply andb_prop in K; destruct K as [K K3]. apply andb_prop in K; destruct K as [K1 K2].
   repeat split; auto. destruct (np <=? 1); [exact K2| apply Nat.eqb_eq; exact K2].
 Qed.
@@ -391,5 +418,66 @@ Proof.
     destruct (String.ltb (iname b) (iname a)).
     + apply commutes_sym. apply diff_comm; assumption.
     + apply diff_comm; assumption.
+Qed.
+(* ---- Instruction's sorted qubit lists ---- *)
+Lemma nodupb_perm l l' : Permutation.Permutation l l' -> nodupb l = nodupb l'.
+Proof.
+  intro P. destruct (nodupb l) eqn:E1; destruct (nodupb l') eqn:E2; try reflexivity.
+  - apply nodupb_NoDup in E1. apply (Permutation.Permutation_NoDup P) in E1. apply NoDup_nodupb in E1. congruence.
+  - apply nodupb_NoDup in E2. apply (Permutation.Permutation_NoDup (Permutation.Permutation_sym P)) in E2.
+    apply NoDup_nodupb in E2. congruence.
+Qed.
+
+Lemma sym_facts n nc nt np m : arity n = Some (nc, nt, np) -> gate_mexp n = Some m ->
+  (nt = 2 -> n <> "RZX" -> scirc_eqb (nc + 2) [(m, seq 0 nc ++ [nc; nc + 1])] [(m, seq 0 nc ++ [nc + 1; nc])] = true) /\
+  (nc = 2 -> scirc_eqb (2 + nt) [(m, 0 :: 1 :: seq 2 nt)] [(m, 1 :: 0 :: seq 2 nt)] = true).
+Proof.
+  intros Ha D. apply assoc_In in Ha. pose proof sorted_faithful as K. unfold sym_all in K.
+  rewrite forallb_forall in K. specialize (K _ Ha). unfold sym_ok in K. rewrite D in K.
+  apply andb_prop in K. destruct K as [K1 K2]. split; [intros -> N| intros ->; exact K2].
+  apply String.eqb_neq in N. rewrite N in K1. exact K1.
+Qed.
+
+Theorem act_real_target_order n c t1 t2 args d st : n <> "RZX" ->
+  act_real (mkInstr n [t1; t2] c args d) st = act_real (mkInstr n [t2; t1] c args d) st.
+Proof.
+  intro NZ. unfold act_real, wf_instr, iqubits, ikey. cbn [iname icontrols itargets iargs].
+  destruct (arity n) as [[[nc nt] np]|] eqn:Ar; [|reflexivity].
+  destruct (gate_mexp n) as [m|] eqn:D; [|reflexivity].
+  rewrite (nodupb_perm (c ++ [t2; t1]) (c ++ [t1; t2]))
+    by (apply Permutation.Permutation_app_head; apply Permutation.perm_swap).
+  destruct (_ && _) eqn:E; [|reflexivity].
+  apply andb_prop in E. destruct E as [E _]. apply andb_prop in E. destruct E as [E E3].
+  apply andb_prop in E. destruct E as [E1 E2]. apply Nat.eqb_eq in E1, E2. cbn [length] in E2. subst nt.
+  apply nodupb_NoDup in E3.
+  destruct (name_facts _ _ _ _ Ar) as (m' & _ & Hs & _). destruct (sym_facts _ _ _ _ _ Ar D) as [K _].
+  specialize (K eq_refl NZ).
+  destruct nc as [|[|[|nc]]]; try discriminate Hs; destruct c as [|c1 [|c2 c]]; try discriminate E1; ndinv.
+  - assert (ND : NoDup [t1; t2]) by nd.
+    pose proof (rule_sound R (env (map Qred args)) _ _ _ [t1; t2] K ND eq_refl) as Q.
+    apply (f_equal (fun f => f st)) in Q. exact Q.
+  - assert (ND : NoDup [c1; t1; t2]) by nd.
+    pose proof (rule_sound R (env (map Qred args)) _ _ _ [c1; t1; t2] K ND eq_refl) as Q.
+    apply (f_equal (fun f => f st)) in Q. exact Q.
+Qed.
+
+Theorem act_real_control_order n t c1 c2 args d st :
+  act_real (mkInstr n t [c1; c2] args d) st = act_real (mkInstr n t [c2; c1] args d) st.
+Proof.
+  unfold act_real, wf_instr, iqubits, ikey. cbn [iname icontrols itargets iargs].
+  destruct (arity n) as [[[nc nt] np]|] eqn:Ar; [|reflexivity].
+  destruct (gate_mexp n) as [m|] eqn:D; [|reflexivity].
+  rewrite (nodupb_perm ([c2; c1] ++ t) ([c1; c2] ++ t))
+    by (apply Permutation.Permutation_app_tail; apply Permutation.perm_swap).
+  destruct (_ && _) eqn:E; [|reflexivity].
+  apply andb_prop in E. destruct E as [E _]. apply andb_prop in E. destruct E as [E E3].
+  apply andb_prop in E. destruct E as [E1 E2]. apply Nat.eqb_eq in E1, E2. cbn [length] in E1. subst nc.
+  apply nodupb_NoDup in E3.
+  destruct (name_facts _ _ _ _ Ar) as (m' & _ & Hs & _). destruct (sym_facts _ _ _ _ _ Ar D) as [_ K].
+  specialize (K eq_refl).
+  destruct nt as [|[|[|nt]]]; try discriminate Hs; destruct t as [|t1 [|t2 t]]; try discriminate E2; ndinv.
+  assert (ND : NoDup [c1; c2; t1]) by nd.
+  pose proof (rule_sound R (env (map Qred args)) _ _ _ [c1; c2; t1] K ND eq_refl) as Q.
+  apply (f_equal (fun f => f st)) in Q. exact Q.
 Qed.
 End Real.
